@@ -13,7 +13,7 @@ TECHNIQUE = ('property-based testing (Hypothesis) of submission programs interle
              'loop shutdown at generated instants, foreign submit-then-wait_from_anywhere threads under generated schedules; '
              'barrier snapshot oracle at each wait() return, deadlock detector and virtual-time horizon watchdog for termination')
 RULE = ('cases: C03 programs with several wait() calls at any grid instant (idle / collecting / timer armed / function running / '
-        'another wait pending); one quarter shut the loop down (main returns, asyncio.run cancels the background task) at an instant '
+        'another wait pending); half shut the loop down (main returns, asyncio.run cancels the background task) at an instant '
         'relative to the program landmarks; one quarter add a foreign thread doing submit-then-wait_from_anywhere. '
         'non-trivial: a wait() issued while the function is running or the timer is armed, or >=2 overlapping waits, or shutdown in a '
         'non-idle state; distinct by case hash')
@@ -30,7 +30,7 @@ def strategy(tier):
     vt = B.with_schedule(B.program(kinds=kinds), 1)
     sd = B.with_schedule(B.program(kinds=kinds, nmax=5, shutdown=True), 1)
     f1 = B.with_schedule(B.program(kinds=kinds, nmax=4, with_foreign=1), 2)
-    return st.one_of(vt, vt, sd, f1)
+    return st.one_of(vt, sd, sd, f1)
 
 
 def run_case(case):
